@@ -113,7 +113,7 @@ class Mod:
         # defining statements are unchanged (engine/roles.py)
         from . import normal, roles
 
-        normal.normalise(self.tree)
+        normal.normalise(self.tree, rel)
         roles.normalise(self.tree, rel)
         self.modname = rel[:-3].replace("/", ".")
         if self.modname.endswith(".__init__"):
